@@ -1,7 +1,9 @@
 (* Props/C09.v — writing a definition to XTCE XML and loading it back preserves its meaning.
    The round trip is a theorem at every level of the document, up to the whole document, for all eight parameter type kinds.
-   A time type stores scale and offset as attributes of <Encoding>, so the default calibrator it can carry back is the one those
-   attributes stand for ([time_default_ok]: none, a spline (written inside the data encoding), scale*x, or offset + scale*x).  [*_wf] are the writer-normal-form conditions every dumped
+   A time type writes a first order default polynomial also as the scale and offset attributes of <Encoding> (repair F19: any
+   other polynomial stays with the data encoding alone); [time_default_ok] excludes a [scale; offset] polynomial in that term
+   order (read back as [offset; scale]) and what the writer refuses (a spline, a data encoding that is not numeric).
+   [*_wf] are the writer-normal-form conditions every dumped
    definition satisfies (optional strings non-empty, spline order 0/1, criteria lists in one of the three XTCE shapes, ...). *)
 From Coq Require Import ZArith List Bool String.
 From SPP Require Import Base.Sx Model.Xml Proofs.RoundTripP.
@@ -11,6 +13,12 @@ Import ListNotations.
 Theorem C09_roundtrip : forall U date d v, doc_wf d -> write_doc U date d = Ok v -> read_doc U v = Ok (with_date d date).
 Proof. exact rt_doc. Qed.
 Print Assumptions C09_roundtrip.
+
+(* ... and every well-formed document is written: what the writer refuses (ValueError: a time type it cannot express, restriction
+   criteria without a base container) lies outside [doc_wf], so the theorem above speaks about every well-formed document *)
+Theorem C09_wellformed_is_written : forall U date d, doc_wf d -> exists v, write_doc U date d = Ok v.
+Proof. exact wf_doc_written. Qed.
+Print Assumptions C09_wellformed_is_written.
 
 Theorem C09_roundtrip_container : forall U c v, container_wf c -> write_container U c = Ok v -> read_container U v = Ok c.
 Proof. exact rt_container. Qed.
